@@ -4,6 +4,8 @@ import (
 	"fmt"
 	"net"
 	"os"
+	"runtime"
+	"runtime/debug"
 	"sort"
 	"strings"
 	"testing"
@@ -23,6 +25,8 @@ import (
 
 func TestMain(m *testing.M) {
 	log.Default.Handlers = []log.Handler{log.DiscardHandler}
+	runtime.MemProfileRate = 0
+	debug.SetGCPercent(400)
 	os.Exit(m.Run())
 }
 
